@@ -303,6 +303,8 @@ func (l *Loaded) Explore(spec *EntrySpec, activeKnown map[string]bool, workers i
 		for f := range ssautil.AllFunctions(l.prog) {
 			if f.Name() == d {
 				f.WriteTo(os.Stderr)
+			} else if strings.HasPrefix(d, "?") && strings.Contains(f.String(), d[1:]) {
+				fmt.Fprintln(os.Stderr, "FN:", f.String())
 			}
 		}
 	}
